@@ -15,12 +15,48 @@
     (`C17_print_entity_ref_counterexample`).
   * `quoteCedar` (attribute names, action names, enum values, annotation values) is undone by the lexer's
     `rust.Unquote`: `C17_quoteCedar_unquote`.
-  The text LEXER/PARSER is modelled executably only (CedarGo/Model/Schema/Parser.lean, `partial def` loops, tied to the
-  Go parser by the `schema-parse` and `schema-text-roundtrip` correspondence ops — rendered, hand-written and mutated
-  texts); no theorem is stated about it.  text→AST→text, text→JSON→text and JSON→text→JSON are checked by the search
-  oracle of harness/cmd/vh/c17.go on the implementation.
+  * The text LEXER / PARSER (CedarGo/Model/Schema/Parser.lean: a total, fuelled transcription of token.go / parser.go,
+    tied to the Go parser by the `schema-parse` and `schema-text-roundtrip` correspondence ops — rendered, hand-written and
+    mutated texts) — THE TEXT HALF OF THE PROPERTY:
+      C17_schema_text_roundtrip_partial            parseSchema (printSchema s) = ok (normSchema s) on the decidable fragment
+                                                   `SchemaTextOk` (every construct of the grammar; names needing quotes;
+                                                   keywords as names); `normSchema` = key order + dropped annotations of the
+                                                   empty namespace + built-in / entity-reference NODES as the NAMES printed
+      C17_schema_text_lex_parse_partial            the two halves: bytes → tokens `toksSchema s`, tokens → `normSchema s`
+      C17_schema_print_normal_form_stable          printSchema (normSchema s) = printSchema s for EVERY schema (full)
+      C17_schema_print_stable_partial              second rendering byte-identical to the first (on the fragment)
+      C17_schema_text_roundtrip_resolved_partial   (parse (print s)).map resolve = resolve s under `SchemaTextOk`, `KeysSorted`
+                                                   (representation invariant) and `EntityRefsOk` (extension nodes known,
+                                                   explicit entity references unambiguous; decidable) — nothing is assumed
+                                                   about built-in names: C17_builtin_nodes_always_reresolve;
+                                                   …_resolved_plain_partial (no ext / entity-ref nodes: no such hypothesis);
+                                                   C17_normSchema_resolves_same (resolver level, `ResolvesAlike`)
+      C17_formats_commute_partial                  text→AST→JSON→AST is the identical AST (needs only sorted memberOf lists:
+                                                   C17_text_normal_form_json_representable); JSON→AST→text→AST resolves alike
+      C17_schema_parser_total / _lexer_total       the fuel is never exhausted on ANY token list / character list, so an
+                                                   error always means rejection; C17_schema_parser_fuel_irrelevant,
+                                                   C17_schema_parse_ok_iff / _error_iff
+    Lemma files: Lemmas/C17TextDefs (token rendering, normal form, fragment), C17TextLex* (lexer half), C17TextParse*
+    (parser half), C17TextPrint (print stability), C17TextResolve* (resolver invariance), C17TextShadow (built-in names
+    are never captured), C17TextJson* (the normal form is JSON-representable), C17TextTotal (totality).
+    WHAT IS STILL EXCLUDED (why the theorems keep `_partial`): ASTs that are not the AST of any Cedar text (see
+    `SchemaTextOk`), among them the open finding `appliesTo-without-principal-or-resource-renders-unparseable`; for the
+    RESOLVED statement additionally unsorted association lists (the model's maps are key-sorted by construction) and the
+    schemas where the text form genuinely loses information (`EntityRefsOk`: unknown extension node, undefined or
+    captured entity reference = finding `entity-ref-rendered-as-ambiguous-name`).  Layout other than the printer's
+    (comments, other white space) is covered by correspondence only.
+  text→AST→text, text→JSON→text and JSON→text→JSON are also checked by the search oracle of harness/cmd/vh/c17.go on the
+  implementation.
 -/
 import CedarGoProofs.Lemmas.C17Quote
+import CedarGoProofs.Lemmas.C17TextLex
+import CedarGoProofs.Lemmas.C17TextParse
+import CedarGoProofs.Lemmas.C17TextPrint
+import CedarGoProofs.Lemmas.C17TextResolve
+import CedarGoProofs.Lemmas.C17TextTotal
+import CedarGoProofs.Lemmas.C17TextShadow
+import CedarGoProofs.Lemmas.C17TextJson
+import CedarGoProofs.Lemmas.C17TextJsonB
 namespace CedarGo
 open CedarGo.Schema
 
@@ -205,5 +241,226 @@ example : quoteCedar "a\"b\\\n\x00é" = "\"a\\\"b\\\\\\n\\0\\u{e9}\"" := by deci
 /-- and the quoted form is the body between two double quotes -/
 theorem C17_quoteCedar_shape (s : String) : (quoteCedar s).toList = '"' :: quoteBody s.toList ++ ['"'] := by
   simp [quoteCedar]
+
+/-! ## the TEXT half: printer → lexer → parser -/
+
+/-- FULL STATEMENT (false, see `C17_print_entity_ref_counterexample` and the open findings): for EVERY schema `s`,
+    `parseSchema (printSchema s) = .ok s'` with `s'` resolving like `s`.
+    PROVED PART — the AST level: for every schema in the decidable fragment `SchemaTextOk` (every construct of the grammar:
+    any number of namespaces incl. the empty one, entity types with memberOf lists / shapes / tags, enum entity types,
+    common types, actions with qualified and unqualified parents and appliesTo, all type forms arbitrarily nested,
+    annotations with and without value everywhere, attribute / action names and enum / annotation values that are
+    ARBITRARY strings (quoted by the printer when they are not identifiers), keywords used as names wherever the grammar
+    allows), lexing and parsing the printed text yields exactly `normSchema s`: `s` with
+      * every association list (declarations per kind, namespaces, annotations) in ascending key order — the order in
+        which the printer writes them; the attribute order of records is kept,
+      * the annotations of the empty namespace dropped (no text form),
+      * `String`/`Long`/`Bool`/extension type nodes and explicit entity references replaced by the type reference of the
+        name they are printed under (`Long`, or `__cedar::Long` if the current or the empty namespace declares a `Long`).
+    On key-sorted input (the representation invariant of the model's maps) only the last two change anything.
+    What `SchemaTextOk` excludes are ASTs that are not the AST of any Cedar text: see its doc comment
+    (Lemmas/C17TextDefs.lean). -/
+theorem C17_schema_text_roundtrip_partial (s : Schema) (h : SchemaTextOk s = true) :
+    parseSchema (printSchema s) = .ok (normSchema s) := by
+  unfold parseSchema
+  rw [TextLex.lex_printSchema s h]
+  simp only [TextParse.parseToks_toksSchema s h]
+
+/-- the two halves separately: the printed bytes lex to the token rendering `toksSchema s` (every string quoted by the printer
+    is read back by `scanString` + `rust.Unquote`, every name is one token, no two tokens merge), and the parser maps those
+    tokens to `normSchema s` with fuel to spare -/
+theorem C17_schema_text_lex_parse_partial (s : Schema) (h : SchemaTextOk s = true) :
+    lexAll (printSchema s).toList = .ok (toksSchema s ++ [.eof]) ∧
+    parseToks (toksSchema s ++ [.eof]) = some (.ok (normSchema s, [.eof])) :=
+  ⟨TextLex.lex_printSchema s h, TextParse.parseToks_toksSchema s h⟩
+
+/-- **the second rendering is byte-identical to the first** — at full strength for the normal form: for EVERY schema (no
+    hypothesis, duplicate keys and ill-formed names included) printing `normSchema s` gives the bytes of printing `s` -/
+theorem C17_schema_print_normal_form_stable (s : Schema) : printSchema (normSchema s) = printSchema s :=
+  TextPrint.printSchema_normSchema s
+
+/-- FULL STATEMENT: for every schema whose rendering parses to `s'`, `printSchema s' = printSchema s`.
+    PROVED PART: on the fragment `SchemaTextOk` (where the parse result is known). -/
+theorem C17_schema_print_stable_partial (s s' : Schema) (h : SchemaTextOk s = true)
+    (hp : parseSchema (printSchema s) = .ok s') : printSchema s' = printSchema s := by
+  rw [C17_schema_text_roundtrip_partial s h] at hp
+  injection hp with hp
+  rw [← hp]
+  exact C17_schema_print_normal_form_stable s
+
+/-- non-vacuity: a schema using every construct of the fragment — unsorted declarations, the empty namespace with an
+    annotation that is dropped, three namespaces (one with a path name, one empty), annotations with and without
+    value and with reserved words as keys, entity types called `enum`, `tags`, `Set`, `Long` (shadowing the primitive:
+    printed `__cedar::Long`), memberOf lists with one and several (qualified) parents, an empty shape, attribute names
+    that need quoting (`"a b"`, `"in"`), optional attributes, `Set<Set<…>>`, nested and empty records, an extension type,
+    an explicit entity reference, a `__cedar::`-qualified reference, a reference to `Set` as a NAME, enum values with
+    quotes / newline / empty string, actions with quoted names, unqualified and qualified parents, appliesTo with one or
+    several principals, with and without context, a context attribute called `principal`, an action called `appliesTo` -/
+def c17TextShape : Attrs :=
+  .cons "name" false [] .string (.cons "a b" true [("if", "")] (.set (.set .long))
+    (.cons "in" false [] (.record (.cons "x" false [] (.ext "ipaddr") .nil))
+      (.cons "r" true [] (.entityRef "Group") (.cons "e" false [] (.record .nil) .nil))))
+
+def c17TextUser : Entity :=
+  { anns := [("in", "k\"w")], parents := ["Group", "Other::T"], shape := some c17TextShape, tags := some (.set .string) }
+
+def c17TextNs : Namespace where
+  anns := [("doc", "x"), ("a", "")]
+  entities := [("User", c17TextUser), ("Group", {}), ("Long", { parents := ["Group"] }),
+               ("enum", { tags := some (.typeRef "Set") }), ("Set", { shape := some .nil })]
+  enums := [("Color", { values := ["red", "gr\"een\n", ""] , anns := [("z", "1")] }), ("tags", { values := ["x"] })]
+  commonTypes := [("T", { ty := .record (.cons "a" true [] (.set .long) .nil) }),
+                  ("Ctx", { anns := [("d", "")], ty := .record (.cons "ip" false [] (.typeRef "__cedar::ipaddr") (.cons "b" false [] .bool .nil)) })]
+  actions := [("view", { parents := [("", "edit"), ("", "read all"), ("Other::Action", "x y")],
+                         appliesTo := some { principals := ["User"], resources := ["Group", "User"], context := some (.typeRef "Ctx") } }),
+              ("edit", { appliesTo := some { principals := ["User", "Group"], resources := ["Group"] } }),
+              ("read all", { anns := [("doc", "")], parents := [("", "edit")] }),
+              ("appliesTo", { parents := [("NS::Action", "edit")],
+                              appliesTo := some { principals := ["User"], resources := ["User"],
+                                                  context := some (.record (.cons "principal" false [] .long .nil)) } })]
+
+def c17TextSample : Schema where
+  bare := { anns := [("lost", "")], entities := [("B", {}), ("A", { parents := ["B"] })],
+            commonTypes := [("String2", { ty := .string })], actions := [("a", {})] }
+  namespaces := [("NS", c17TextNs), ("Other", { entities := [("T", {})], actions := [("x y", {})] }), ("A::B", {})]
+
+example : SchemaTextOk c17TextSample = true := by decide +kernel
+/-- …and the theorem's conclusion on it, evaluated: the text trip is not the identity (it sorts, drops the annotation,
+    turns `.long` into the reference `__cedar::Long`) but the re-parsed schema prints to the same bytes -/
+example : parseSchema (printSchema c17TextSample) = .ok (normSchema c17TextSample) ∧ normSchema c17TextSample ≠ c17TextSample ∧
+    ((normSchema c17TextSample).namespaces.lookup "NS").map (fun d => d.commonTypes.lookup "T") =
+      some (some { ty := .record (.cons "a" true [] (.set (.typeRef "__cedar::Long")) .nil) }) :=
+  ⟨C17_schema_text_roundtrip_partial _ (by decide +kernel), by decide +kernel, by decide +kernel⟩
+
+/-- FULL STATEMENT (false: `C17_print_entity_ref_counterexample`): `(parseSchema (printSchema s)).map resolve = ok (resolve s)` for
+    every schema.  PROVED PART — **the text half of the property**: for every schema in `SchemaTextOk` whose association lists
+    are key-sorted (`KeysSorted`: the representation invariant of the model's Go maps; `resolve` walks them in order, so
+    its output lists follow it) and whose extension-type NODES are known extensions and explicit entity-reference NODES
+    are unambiguous (`EntityRefsOk`, decidable, computed from `registerAll s`: every `.entityRef n` denotes a declared
+    entity type and no common type of that name is in scope), the re-parsed schema resolves to the SAME resolved schema —
+    same entity types, shapes, tags, enums, actions, applies-to sets, contexts, annotations — or fails with the same
+    error.  NO hypothesis about built-in type names is needed: on the fragment a String/Long/Bool/extension node ALWAYS
+    re-resolves (`C17_builtin_nodes_always_reresolve`: the printer writes `__cedar::Long` exactly when a declaration of the
+    current or the empty namespace would capture `Long` — repair 81385ad — and nothing else can capture it).
+    What `EntityRefsOk` excludes is exactly where the text form loses information: an extension type node of unknown
+    name (`unknownExtension` becomes `undefinedType`), an entity reference that is undefined or shadowed by a common
+    type (open finding `entity-ref-rendered-as-ambiguous-name`). -/
+theorem C17_schema_text_roundtrip_resolved_partial (s : Schema) (h : SchemaTextOk s = true)
+    (hs : TextResolve.KeysSorted s = true) (he : TextShadow.EntityRefsOk s = true) :
+    (parseSchema (printSchema s)).toOption.map resolve = some (resolve s) := by
+  rw [C17_schema_text_roundtrip_partial s h]
+  show some (resolve (normSchema s)) = some (resolve s)
+  rw [TextResolve.resolve_normSchema s hs (TextShadow.resolvesAlike_of_textOk s h he)]
+
+/-- in particular for schemas WITHOUT extension-type and entity-reference nodes — every AST the text parser itself
+    produces is one (it only builds type references, sets and records) — nothing but the fragment and the key order is
+    assumed -/
+theorem C17_schema_text_roundtrip_resolved_plain_partial (s : Schema) (h : SchemaTextOk s = true)
+    (hs : TextResolve.KeysSorted s = true) (hp : TextShadow.noExtNoEntityRef s = true) :
+    (parseSchema (printSchema s)).toOption.map resolve = some (resolve s) :=
+  C17_schema_text_roundtrip_resolved_partial s h hs (TextShadow.entityRefsOk_of_plain s hp)
+
+/-- **built-in type nodes always re-resolve** on the fragment: the hypothesis "no built-in type name is shadowed ambiguously"
+    (`ResolvesAlike`: the printed name of every String/Long/Bool/known-extension node looks up, in the registration state of
+    the schema, as that built-in and is not the path of a common type) is a THEOREM for every schema in `SchemaTextOk`, up to
+    the conditions on extension / entity-reference nodes (`EntityRefsOk`).  Uses `C17_print_builtin_reresolves` with
+    `Undeclared` derived from the registration pass: a captured bare name would have to be declared in the empty or the
+    current namespace (then it is in the printer's list and `__cedar::` is written), since qualified names of other
+    namespaces differ and no namespace of the fragment is called `__cedar`. -/
+theorem C17_builtin_nodes_always_reresolve (s : Schema) (h : SchemaTextOk s = true) (he : TextShadow.EntityRefsOk s = true) :
+    TextResolve.ResolvesAlike s = true := TextShadow.resolvesAlike_of_textOk s h he
+
+/-- the resolver-level statement alone, without the text fragment: the normal form resolves like the schema whenever the
+    printed names re-resolve (`ResolvesAlike`) -/
+theorem C17_normSchema_resolves_same (s : Schema) (hs : TextResolve.KeysSorted s = true) (hr : TextResolve.ResolvesAlike s = true) :
+    resolve (normSchema s) = resolve s := TextResolve.resolve_normSchema s hs hr
+
+/-- non-vacuity: `entity Long` next to primitive `.long` attributes (printed `__cedar::Long`), `NS::Bool` next to a primitive
+    `.bool` tag, unshadowed String/Bool, `ipaddr`, entity references, common types across namespaces, an action with
+    appliesTo and context; it resolves successfully and the text trip changes the AST -/
+example : SchemaTextOk TextResolve.exSchema = true ∧ TextResolve.KeysSorted TextResolve.exSchema = true ∧
+    TextShadow.EntityRefsOk TextResolve.exSchema = true ∧ normSchema TextResolve.exSchema ≠ TextResolve.exSchema ∧
+    (match resolve TextResolve.exSchema with | some (.ok _) => true | _ => false) = true := by decide +kernel
+/-- …and every built-in name shadowed in the empty namespace, in `A`, in `A::B` and in `B` -/
+example : SchemaTextOk TextShadow.exShadow = true ∧ TextShadow.EntityRefsOk TextShadow.exShadow = true := by decide +kernel
+
+/-! ## the two formats commute -/
+
+/-- FULL STATEMENT: converting between the two formats in either direction commutes with resolution, for every schema.
+    PROVED PART, composing the text theorems with the JSON struct-level theorems:
+    (1) text → AST → JSON → AST: for `s` in `SchemaTextOk` whose entity memberOf lists are in the order the JSON encoder
+        writes them (`ParentsSorted`; everything else `SchemaJsonOk` demands follows from the fragment — the name checks
+        of the JSON parser, names.go, and of the text parser agree on it: `TextJson.schemaJsonOk_normSchema`), converting
+        the parsed text to JSON and back returns the IDENTICAL AST, hence it resolves like text → AST;
+    (2) JSON → AST → text → AST: for `s` the JSON form can represent (`SchemaJsonOk`), in `SchemaTextOk`, key-sorted and
+        `EntityRefsOk`, the schema read from JSON, printed as text and parsed again resolves like `s`. -/
+theorem C17_formats_commute_partial (s : Schema) (ht : SchemaTextOk s = true) :
+    (TextJson.ParentsSorted s = true →
+      ((parseSchema (printSchema s)).bind fun s' => unmarshalSchema (marshalSchema s')) = parseSchema (printSchema s) ∧
+      (((parseSchema (printSchema s)).bind fun s' => unmarshalSchema (marshalSchema s')).toOption.map resolve =
+        (parseSchema (printSchema s)).toOption.map resolve)) ∧
+    (SchemaJsonOk s → TextResolve.KeysSorted s = true → TextShadow.EntityRefsOk s = true →
+      ((unmarshalSchema (marshalSchema s)).bind fun s1 => parseSchema (printSchema s1)).toOption.map resolve = some (resolve s)) := by
+  refine ⟨fun hj => ?_, fun hj hs hr => ?_⟩
+  · have e : ((parseSchema (printSchema s)).bind fun s' => unmarshalSchema (marshalSchema s')) = parseSchema (printSchema s) := by
+      rw [C17_schema_text_roundtrip_partial s ht]
+      show unmarshalSchema (marshalSchema (normSchema s)) = _
+      exact C17_schema_json_roundtrip_partial _ (TextJson.schemaJsonOk_normSchema s ht hj)
+    exact ⟨e, by rw [e]⟩
+  · rw [C17_schema_json_roundtrip_partial s hj]
+    exact C17_schema_text_roundtrip_resolved_partial s ht hs hr
+
+/-- every schema of the text fragment, once through the text trip, is one the JSON form represents faithfully -/
+theorem C17_text_normal_form_json_representable (s : Schema) (ht : SchemaTextOk s = true) (hp : TextJson.ParentsSorted s = true) :
+    SchemaJsonOk (normSchema s) := TextJson.schemaJsonOk_normSchema s ht hp
+
+example : TextJson.ParentsSorted c17TextSample = true ∧ TextJson.ParentsSorted TextResolve.exSchema = true := by decide +kernel
+/-- a witness for (2): the same schema without the annotation on the empty namespace (the JSON form has no place for one) -/
+def c17BothSample : Schema := { TextResolve.exSchema with bare := { TextResolve.exSchema.bare with anns := [] } }
+example : SchemaJsonOk c17BothSample := schemaJsonOkB_sound _ (by decide +kernel)
+example : SchemaTextOk c17BothSample = true ∧ TextResolve.KeysSorted c17BothSample = true ∧
+    TextShadow.EntityRefsOk c17BothSample = true := by decide +kernel
+
+/-! ## totality of the lexer and parser models -/
+
+/-- **the parser model never runs out of fuel**, on ANY token list (Go has no fuel: every loop iteration and every nested
+    call of the recursive descent consumes a token), so `some (.error _)` always means that the parser rejects -/
+theorem C17_schema_parser_total (toks : List Tok) : parseToks toks ≠ none := TextTotal.parseToks_total toks
+
+/-- the same for the lexer on any character sequence -/
+theorem C17_schema_lexer_total (src : List Char) : lexAllF src ≠ none := TextTotal.lexAllF_total src
+
+/-- more fuel never changes an answer of the parser or the lexer -/
+theorem C17_schema_parser_fuel_irrelevant (n m : Nat) (s : Schema) (ts : List Tok) (r : Except String (Schema × List Tok))
+    (h : parseSchemaF n s ts = some r) (hnm : n ≤ m) : parseSchemaF m s ts = some r :=
+  TextTotal.parseSchemaF_mono n m s ts r h hnm
+
+theorem C17_schema_lexer_fuel_irrelevant (n m : Nat) (cs : List Char) (r : Except String (List Tok))
+    (h : lexFuel n cs = some r) (hnm : n ≤ m) : lexFuel m cs = some r :=
+  TextTotal.lexFuel_mono n m cs r h hnm
+
+/-- hence `parseSchema` accepts / rejects exactly as the fuelled lexer and parser do: the two "out of fuel" branches of
+    its definition are never taken -/
+theorem C17_schema_parse_ok_iff (src : String) (s : Schema) :
+    parseSchema src = .ok s ↔ ∃ toks r, lexAllF src.toList = some (.ok toks) ∧ parseToks toks = some (.ok (s, r)) :=
+  TextTotal.parseSchema_ok_iff src s
+
+theorem C17_schema_parse_error_iff (src : String) (e : String) :
+    parseSchema src = .error e ↔
+      lexAllF src.toList = some (.error e) ∨ ∃ toks, lexAllF src.toList = some (.ok toks) ∧ parseToks toks = some (.error e) :=
+  TextTotal.parseSchema_error_iff src e
+
+/-- the parser rejects what the grammar forbids (regressions of repaired classes, evaluated on the model): an enum without
+    values, `appliesTo` without resource, a reserved common type name, a namespace containing `__cedar`, a repeated
+    annotation; and it accepts `Set` as a name -/
+example : parseSchema "entity E enum [];" = .error "an enum entity type needs at least one value" ∧
+    parseSchema "action a appliesTo { principal: A };" = .error "appliesTo must include a resource declaration" ∧
+    parseSchema "type Long = String;" = .error "reserved type name" ∧
+    parseSchema "namespace A::__cedar {}" = .error "expected identifier after '::'" ∧
+    parseSchema "@a @a entity E;" = .error "duplicate annotation" ∧
+    parseSchema "entity Set; entity E { s: Set, t: Set<Set> };" =
+      .ok { bare := { entities := [("Set", {}), ("E", { shape := some (.cons "s" false [] (.typeRef "Set")
+        (.cons "t" false [] (.set (.typeRef "Set")) .nil)) })] } } := by
+  decide +kernel
 
 end CedarGo
